@@ -224,10 +224,36 @@ def run_case(case, ctx):
     net, ids, nodes, _e = G.build_network(spec, random.Random(case["ord"] + 1) if case["ord"] % 3 == 0 else None)
     ops = [("pair", s, t) for s in range(n) for t in range(n)]
     ops += [("list", s, None) for s in range(n)]
+    ops += [("pair_cut", s, t) for s in range(n) for t in range(n) if (s * 7 + t * 3 + case["ord"]) % 3 == 0]
+    ops += [("fail", s, (s + case["ord"]) % n) for s in range(n) if (s + case["ord"]) % 2 == 0]
     ops += [("table", c, None) for c in cuts] + [("table", None, None)]
     random.Random(case["ord"]).shuffle(ops)
     shared = {}
     for i, (op, a, b) in enumerate(ops):
+        if op == "fail":
+            # error path: a request that stops inside the search (cut=None cannot be compared; unknown identifier);
+            # what it raises is not judged, the requests after it are
+            if (a + i) % 2:
+                M.call(net.shortest_distance, ids[a], ids[b], None)
+            else:
+                M.call(net.shortest_distance, ids[a], "no-such-node")
+            ctx.count("failing_request")
+            continue
+        if op == "pair_cut":
+            # a pair request bounded by a cut-off: the answer is only promised when the true distance is within it;
+            # otherwise the request is a degenerate call whose leftovers must not reach later requests
+            s, t = a, b
+            d = D[s][t]
+            cut = random.Random(case["ord"] * 1000 + i).choice(ds + [x - 0.25 for x in ds] + [x + 0.25 for x in ds] + [0.0])
+            r = M.call(net.shortest_distance, ids[s], ids[t], cut)
+            ctx.count("pair_request_with_cut")
+            if d != G.INF and d <= cut:
+                ctx.monitor(PAIR)
+                if M.is_raised(r) or not isinstance(r, (int, float)) or not G.close(r, d):
+                    return bad({"what": "shortest_distance(s,t,cut) with the true distance within the cut-off is not the "
+                                        "minimum over permitted walks", "s": ids[s], "t": ids[t], "cut": cut, "got": r,
+                                "true_distance": d, "call_index": i})
+            continue
         if op == "pair":
             s, t = a, b
             if i % 5 == 4:
@@ -235,6 +261,13 @@ def run_case(case, ctx):
                 # by whatever earlier request used it, all_shortest_distances included)
                 r = M.call(net.shortest_distance, ids[s], ids[t], 1e300, shared)
                 ctx.count("pair_request_with_output_dict")
+            elif i % 7 == 3:
+                # Node objects of the caller's own making (same id and position, not the instances the network keeps)
+                from tracklib.core.network import Node
+                from tracklib.core.obs_coords import ENUCoords
+                r = M.call(net.shortest_distance, Node(ids[s], ENUCoords(spec["pos"][s][0], spec["pos"][s][1], 0)),
+                           Node(ids[t], ENUCoords(spec["pos"][t][0], spec["pos"][t][1], 0)))
+                ctx.count("pair_request_with_foreign_node_objects")
             elif i % 3 == 0:
                 r = M.call(net.shortest_distance, nodes[s], nodes[t])
             else:
